@@ -28,6 +28,14 @@ func Generate(t *rapid.T, cfg *Config) *Program {
 		for i := 0; i < nm; i++ {
 			decls = append(decls, g.genMethod(i))
 		}
+		if g.on("ptr-methods") {
+			np := g.n(0, 2, "nptrmethods")
+			for i := 0; i < np; i++ {
+				if d := g.genPtrMethod(i); d != "" {
+					decls = append(decls, d)
+				}
+			}
+		}
 	}
 
 	// main
@@ -255,4 +263,25 @@ func (g *Gen) genMethod(i int) string {
 	f := &fnInfo{Name: name, Params: []*Type{pt}, Results: []*Type{rt}, Cost: 5, Recv: st, RecvBase: st}
 	g.methods = append(g.methods, f)
 	return fmt.Sprintf("func (r %s) %s(a %s) %s {\n%s}\n", st.Name, name, pt.Name, rt.Name, body)
+}
+
+// genPtrMethod generates a pointer-receiver method that updates a numeric
+// field of its receiver and prints it; it is only called in statement position.
+func (g *Gen) genPtrMethod(i int) string {
+	st := g.U.Structs[g.n(0, len(g.U.Structs)-1, "precv")]
+	var fields []Field
+	for _, f := range st.Fields {
+		if f.Type.Kind == KInt {
+			fields = append(fields, f)
+		}
+	}
+	if len(fields) == 0 {
+		return ""
+	}
+	f := fields[g.n(0, len(fields)-1, "pfield")]
+	name := fmt.Sprintf("P%d", i)
+	op := []string{"+=", "-=", "^=", "*="}[g.n(0, 3, "pop")]
+	g.pmethods = append(g.pmethods, &fnInfo{Name: name, Params: []*Type{f.Type}, Cost: 4, Recv: st, RecvBase: st, Mutating: true})
+	g.use("method-ptr-recv")
+	return fmt.Sprintf("func (r *%s) %s(a %s) {\n\tr.%s %s a\n\tfmt.Println(%q, r.%s)\n}\n", st.Name, name, f.Type.Name, f.Name, op, name, f.Name)
 }
